@@ -3,7 +3,11 @@ package main
 // Whole-program facts recomputed from the SSA on every run:
 //  - constructor-only ("immutable") struct fields: every store to the field targets an object
 //    allocated in the storing activation and the field's address never escapes;
-//  - which functions store to which heap arrays (for confinement checks).
+//  - per function, the heap arrays it may write on objects that are not fresh in its own
+//    activation, closed over the call graph (static callees, class-hierarchy resolution of
+//    interface calls, address-taken functions for dynamic calls).
+// Declared frames ("assigns" clauses) replace the inferred set at call sites and are checked
+// against it for functions that are not trusted.
 
 import (
 	"go/types"
@@ -14,16 +18,66 @@ import (
 )
 
 type ModInfo struct {
-	Mutable map[string]string            // array -> first witness (function: position) of a non-constructor write
-	Writers map[string]map[string]bool   // array -> functions with a non-fresh store to it
-	Fields  map[string]bool              // all field arrays seen
+	Mutable map[string]string          // field array -> first witness of a non-constructor write
+	Writers map[string]map[string]bool // array -> functions with a direct non-fresh store to it
+	Fields  map[string]bool            // all field arrays seen
+	Direct  map[*ssa.Function]map[string]bool
+	Trans   map[*ssa.Function]map[string]bool
+	Callees map[*ssa.Function]map[*ssa.Function]bool
+	addrTaken []*ssa.Function
+	w       *World
 }
+
+func sortOfType(t types.Type) string {
+	switch u := t.Underlying().(type) {
+	case *types.Basic:
+		switch {
+		case u.Info()&types.IsBoolean != 0:
+			return "Bool"
+		case u.Info()&types.IsInteger != 0:
+			return "ISort"
+		case u.Info()&types.IsString != 0:
+			return "Str"
+		case u.Info()&types.IsFloat != 0:
+			return "F64"
+		case u.Kind() == types.UntypedNil:
+			return "Iface"
+		case u.Kind() == types.UnsafePointer:
+			return "Ref"
+		}
+		return "ISort"
+	case *types.Pointer, *types.Map, *types.Signature, *types.Chan:
+		return "Ref"
+	case *types.Interface:
+		return "Iface"
+	case *types.Slice:
+		return "Slice"
+	case *types.Struct, *types.Array:
+		return "SV"
+	case *types.Tuple:
+		return "TUPLE"
+	}
+	return "Ref"
+}
+
+func arrElems(el types.Type) string { return "Elems_" + sname(types.TypeString(el, qualName)) }
+func arrCell(el types.Type) string  { return "Cell_" + sname(types.TypeString(el, qualName)) }
+func arrMapBase(mt *types.Map) string {
+	return "Map_" + sortOfType(mt.Key()) + "_" + sortOfType(mt.Elem())
+}
+func arrGlobal(g *ssa.Global) string { return "Glob_" + sname(g.Pkg.Pkg.Name()+"."+g.Name()) }
 
 func isLocalAlloc(v ssa.Value) bool {
 	switch x := v.(type) {
 	case *ssa.Alloc:
 		return true
 	case *ssa.FieldAddr:
+		return isLocalAlloc(x.X)
+	case *ssa.IndexAddr:
+		return isLocalAlloc(x.X)
+	case *ssa.MakeMap, *ssa.MakeSlice:
+		return true
+	case *ssa.Slice:
 		return isLocalAlloc(x.X)
 	case *ssa.Call:
 		if b, ok := x.Call.Value.(*ssa.Builtin); ok && b.Name() == "new" {
@@ -37,27 +91,89 @@ func fieldArrName(pt types.Type, st *types.Struct, i int) string {
 	return "H_" + sname(types.TypeString(pt, qualName)) + "." + st.Field(i).Name()
 }
 
+// structArrays: all field arrays of a struct type (nested by-value structs included).
+func structArrays(t types.Type, out map[string]bool, d int) {
+	st, ok := t.Underlying().(*types.Struct)
+	if !ok || d > 3 {
+		return
+	}
+	for i := 0; i < st.NumFields(); i++ {
+		ft := st.Field(i).Type()
+		if _, isStruct := ft.Underlying().(*types.Struct); isStruct {
+			structArrays(ft, out, d+1)
+		} else {
+			out[fieldArrName(t, st, i)] = true
+		}
+	}
+}
+
+// pointeeArrays: arrays that a write through a pointer of type *el may touch.
+func pointeeArrays(el types.Type, out map[string]bool) {
+	if _, isStruct := el.Underlying().(*types.Struct); isStruct {
+		structArrays(el, out, 0)
+		return
+	}
+	out[arrCell(el)] = true
+}
+
 func (w *World) computeModInfo() *ModInfo {
-	mi := &ModInfo{Mutable: map[string]string{}, Writers: map[string]map[string]bool{}, Fields: map[string]bool{}}
+	mi := &ModInfo{Mutable: map[string]string{}, Writers: map[string]map[string]bool{}, Fields: map[string]bool{},
+		Direct: map[*ssa.Function]map[string]bool{}, Trans: map[*ssa.Function]map[string]bool{}, Callees: map[*ssa.Function]map[*ssa.Function]bool{}, w: w}
 	markAll := func(t types.Type, why string) {
-		var rec func(t types.Type, d int)
-		rec = func(t types.Type, d int) {
-			st, ok := t.Underlying().(*types.Struct)
-			if !ok || d > 3 {
-				return
-			}
-			for i := 0; i < st.NumFields(); i++ {
-				a := fieldArrName(t, st, i)
-				if _, ok := mi.Mutable[a]; !ok {
-					mi.Mutable[a] = why
-				}
-				rec(st.Field(i).Type(), d+1)
+		m := map[string]bool{}
+		structArrays(t, m, 0)
+		for a := range m {
+			if _, ok := mi.Mutable[a]; !ok {
+				mi.Mutable[a] = why
 			}
 		}
-		rec(t, 0)
 	}
+	// address-taken functions (candidates for dynamic calls)
+	taken := map[*ssa.Function]bool{}
+	for _, f := range w.FuncList {
+		for _, b := range f.Blocks {
+			for _, ins := range b.Instrs {
+				var ops []*ssa.Value
+				ops = ins.Operands(ops)
+				for k, op := range ops {
+					if op == nil || *op == nil {
+						continue
+					}
+					if fn, ok := (*op).(*ssa.Function); ok {
+						if ci, isCall := ins.(ssa.CallInstruction); isCall && k == 0 && ci.Common().Value == fn {
+							continue
+						}
+						taken[fn] = true
+					}
+					if mc, ok := (*op).(*ssa.MakeClosure); ok {
+						taken[mc.Fn.(*ssa.Function)] = true
+					}
+				}
+				if mc, ok := ins.(*ssa.MakeClosure); ok {
+					taken[mc.Fn.(*ssa.Function)] = true
+				}
+			}
+		}
+	}
+	for f := range taken {
+		if f.Blocks != nil && f.Pkg != nil && w.InRepo[f.Pkg] {
+			mi.addrTaken = append(mi.addrTaken, f)
+		}
+	}
+	sort.Slice(mi.addrTaken, func(i, j int) bool { return funcKey(mi.addrTaken[i]) < funcKey(mi.addrTaken[j]) })
 	for _, f := range w.FuncList {
 		key := funcKey(f)
+		direct := map[string]bool{}
+		callees := map[*ssa.Function]bool{}
+		mi.Direct[f] = direct
+		mi.Callees[f] = callees
+		add := func(a string) {
+			direct[a] = true
+			if mi.Writers[a] == nil {
+				mi.Writers[a] = map[string]bool{}
+			}
+			mi.Writers[a][key] = true
+		}
 		for _, b := range f.Blocks {
 			for _, ins := range b.Instrs {
 				switch x := ins.(type) {
@@ -74,26 +190,19 @@ func (w *World) computeModInfo() *ModInfo {
 							if u.Addr == x {
 								if !isLocalAlloc(x.X) {
 									why := key + " " + shortPos(w.Fset, u.Pos())
-									if _, ok := mi.Mutable[arr]; !ok {
-										mi.Mutable[arr] = why
-									}
-									if mi.Writers[arr] == nil {
-										mi.Writers[arr] = map[string]bool{}
-									}
-									mi.Writers[arr][key] = true
 									if isStructField {
 										markAll(ft, why)
+									} else if _, ok := mi.Mutable[arr]; !ok {
+										mi.Mutable[arr] = why
 									}
 								}
 							} else if !isStructField {
-								// address stored somewhere: escapes
 								if _, ok := mi.Mutable[arr]; !ok {
 									mi.Mutable[arr] = key + " (address escapes)"
 								}
 							}
 						case *ssa.UnOp, *ssa.DebugRef:
 						case *ssa.FieldAddr, *ssa.IndexAddr:
-							// nested access: handled at the nested instruction
 						default:
 							if !isStructField {
 								if _, ok := mi.Mutable[arr]; !ok {
@@ -101,27 +210,258 @@ func (w *World) computeModInfo() *ModInfo {
 								}
 							} else if _, isCall := r.(ssa.CallInstruction); !isCall {
 								markAll(ft, key+" (address of struct field escapes)")
-							} else if isCall {
-								// method call on a by-value struct field (x.mu.Lock()): the callee may write the
-								// sub-object's own fields; for repo struct types mark them mutable
-								if n, ok := ft.(*types.Named); ok && n.Obj().Pkg() != nil && strings.HasPrefix(n.Obj().Pkg().Path(), repoModule) {
-									markAll(ft, key+" (method call on struct field)")
-								}
+							} else if n, ok := ft.(*types.Named); ok && n.Obj().Pkg() != nil && strings.HasPrefix(n.Obj().Pkg().Path(), repoModule) {
+								markAll(ft, key+" (method call on struct field)")
 							}
 						}
 					}
 				case *ssa.Store:
-					// whole-struct store through a pointer
-					if pt, ok := x.Addr.Type().Underlying().(*types.Pointer); ok {
-						if _, isStruct := pt.Elem().Underlying().(*types.Struct); isStruct && !isLocalAlloc(x.Addr) {
-							markAll(pt.Elem(), key+" "+shortPos(w.Fset, x.Pos())+" (struct assignment)")
-						}
+					mi.storeEffects(x, add, markAll, key)
+				case *ssa.MapUpdate:
+					if !isLocalAlloc(x.Map) {
+						mt := x.Map.Type().Underlying().(*types.Map)
+						add(arrMapBase(mt) + ".has")
+						add(arrMapBase(mt) + ".val")
+						add("MapLen")
+					}
+				}
+				if ci, ok := ins.(ssa.CallInstruction); ok {
+					mi.callEffects(f, ci, add, callees)
+				}
+			}
+		}
+	}
+	// declared trusted frames replace inference
+	declared := func(f *ssa.Function) (map[string]bool, bool) {
+		fc := w.CS.Funcs[funcKey(f)]
+		if fc == nil || !fc.TrustedFrame {
+			return nil, false
+		}
+		return map[string]bool{}, true // "assigns fresh"/"nothing" under trusted-frame: no visible writes
+	}
+	for _, f := range w.FuncList {
+		t := map[string]bool{}
+		if d, ok := declared(f); ok {
+			t = d
+		} else {
+			for a := range mi.Direct[f] {
+				t[a] = true
+			}
+		}
+		mi.Trans[f] = t
+	}
+	for changed := true; changed; {
+		changed = false
+		for _, f := range w.FuncList {
+			if _, ok := declared(f); ok {
+				continue
+			}
+			t := mi.Trans[f]
+			for c := range mi.Callees[f] {
+				for a := range mi.Trans[c] {
+					if !t[a] {
+						t[a] = true
+						changed = true
 					}
 				}
 			}
 		}
 	}
 	return mi
+}
+
+func (mi *ModInfo) storeEffects(x *ssa.Store, add func(string), markAll func(types.Type, string), key string) {
+	pt, ok := x.Addr.Type().Underlying().(*types.Pointer)
+	if !ok {
+		return
+	}
+	el := pt.Elem()
+	switch a := x.Addr.(type) {
+	case *ssa.FieldAddr:
+		if isLocalAlloc(a.X) {
+			return
+		}
+		spt := a.X.Type().Underlying().(*types.Pointer).Elem()
+		st := spt.Underlying().(*types.Struct)
+		if _, isStruct := el.Underlying().(*types.Struct); isStruct {
+			m := map[string]bool{}
+			structArrays(el, m, 0)
+			for k := range m {
+				add(k)
+			}
+			return
+		}
+		add(fieldArrName(spt, st, a.Field))
+	case *ssa.IndexAddr:
+		if isLocalAlloc(a.X) {
+			return
+		}
+		if _, isStruct := el.Underlying().(*types.Struct); isStruct {
+			m := map[string]bool{}
+			structArrays(el, m, 0)
+			for k := range m {
+				add(k)
+			}
+			return
+		}
+		add(arrElems(el))
+	case *ssa.Global:
+		add(arrGlobal(a))
+	case *ssa.Alloc:
+		// own local: invisible to callers
+	case *ssa.FreeVar:
+		m := map[string]bool{}
+		pointeeArrays(el, m)
+		for k := range m {
+			add(k)
+		}
+	default:
+		if _, isStruct := el.Underlying().(*types.Struct); isStruct {
+			markAll(el, key+" "+shortPos(mi.w.Fset, x.Pos())+" (struct assignment)")
+		}
+		m := map[string]bool{}
+		pointeeArrays(el, m)
+		for k := range m {
+			add(k)
+		}
+	}
+}
+
+func pkgPathOf(f *ssa.Function) string {
+	if f.Pkg != nil {
+		return f.Pkg.Pkg.Path()
+	}
+	if f.Object() != nil && f.Object().Pkg() != nil {
+		return f.Object().Pkg().Path()
+	}
+	return ""
+}
+
+func (mi *ModInfo) callEffects(f *ssa.Function, ci ssa.CallInstruction, add func(string), callees map[*ssa.Function]bool) {
+	w := mi.w
+	cc := ci.Common()
+	if bi, ok := cc.Value.(*ssa.Builtin); ok {
+		switch bi.Name() {
+		case "append", "copy":
+			if st, ok := cc.Args[0].Type().Underlying().(*types.Slice); ok {
+				if bi.Name() == "copy" && isLocalAlloc(cc.Args[0]) {
+					return
+				}
+				if _, isStruct := st.Elem().Underlying().(*types.Struct); isStruct {
+					m := map[string]bool{}
+					structArrays(st.Elem(), m, 0)
+					for k := range m {
+						add(k)
+					}
+				} else {
+					add(arrElems(st.Elem()))
+				}
+			}
+		case "delete":
+			if !isLocalAlloc(cc.Args[0]) {
+				mt := cc.Args[0].Type().Underlying().(*types.Map)
+				add(arrMapBase(mt) + ".has")
+				add("MapLen")
+			}
+		}
+		return
+	}
+	if cc.IsInvoke() {
+		for _, m := range mi.implMethods(cc.Value.Type(), cc.Method) {
+			callees[m] = true
+		}
+		return
+	}
+	callee := cc.StaticCallee()
+	if callee == nil {
+		// dynamic call: any address-taken repo function with an identical signature
+		sig, _ := cc.Value.Type().Underlying().(*types.Signature)
+		for _, g := range mi.addrTaken {
+			if sig != nil && types.Identical(g.Signature, sig) {
+				callees[g] = true
+			}
+		}
+		return
+	}
+	if callee.Pkg != nil && w.InRepo[callee.Pkg] && callee.Blocks != nil {
+		callees[callee] = true
+		return
+	}
+	// library function: effects through pointer, interface and function arguments
+	pp := pkgPathOf(callee)
+	for _, a := range cc.Args {
+		switch t := a.Type().Underlying().(type) {
+		case *types.Pointer:
+			if purePkgs[pp] && pp != "sync/atomic" {
+				continue
+			}
+			if strings.HasPrefix(pp, "sync") && pp != "sync/atomic" {
+				continue // lock objects: own state only
+			}
+			if isLocalAlloc(a) {
+				continue
+			}
+			m := map[string]bool{}
+			pointeeArrays(t.Elem(), m)
+			for k := range m {
+				add(k)
+			}
+		case *types.Signature:
+			if fn, ok := a.(*ssa.Function); ok {
+				callees[fn] = true
+			} else if mc, ok := a.(*ssa.MakeClosure); ok {
+				callees[mc.Fn.(*ssa.Function)] = true
+			} else {
+				for _, g := range mi.addrTaken {
+					if types.Identical(g.Signature, t) {
+						callees[g] = true
+					}
+				}
+			}
+		case *types.Interface:
+			if t.NumMethods() == 0 || purePkgs[pp] {
+				continue
+			}
+			// the library may call any method of the interface on a repo implementer
+			for i := 0; i < t.NumMethods(); i++ {
+				for _, m := range mi.implMethods(a.Type(), t.Method(i)) {
+					callees[m] = true
+				}
+			}
+		case *types.Slice:
+			if !purePkgs[pp] && !isLocalAlloc(a) {
+				add(arrElems(t.Elem()))
+			}
+		}
+	}
+}
+
+// implMethods: repo methods that an interface call may dispatch to.
+func (mi *ModInfo) implMethods(it types.Type, m *types.Func) []*ssa.Function {
+	var res []*ssa.Function
+	for _, t := range mi.w.implementers(it) {
+		ms := mi.w.Prog.MethodSets.MethodSet(t)
+		sel := ms.Lookup(m.Pkg(), m.Name())
+		if sel == nil {
+			continue
+		}
+		fn := mi.w.Prog.MethodValue(sel)
+		if fn == nil {
+			continue
+		}
+		// promoted methods are synthetic wrappers: follow to the declared method
+		if fn.Synthetic != "" {
+			if obj, ok := sel.Obj().(*types.Func); ok {
+				if decl := mi.w.Prog.FuncValue(obj); decl != nil {
+					fn = decl
+				}
+			}
+		}
+		if fn.Pkg != nil && mi.w.InRepo[fn.Pkg] && fn.Blocks != nil {
+			res = append(res, fn)
+		}
+	}
+	return res
 }
 
 func (mi *ModInfo) immutableFields() []string {
@@ -133,4 +473,10 @@ func (mi *ModInfo) immutableFields() []string {
 	}
 	sort.Strings(r)
 	return r
+}
+
+// modOf: arrays a call of f may write on pre-existing objects (nil, false = unknown function).
+func (mi *ModInfo) modOf(f *ssa.Function) (map[string]bool, bool) {
+	t, ok := mi.Trans[f]
+	return t, ok
 }
